@@ -9,6 +9,7 @@ import (
 
 	"github.com/sirupsen/logrus"
 
+	"github.com/containers/nri-plugins/pkg/verif/mapiter"
 	"github.com/containers/nri-plugins/pkg/verif/mc"
 )
 
@@ -76,6 +77,33 @@ func TestVerifC18(t *testing.T) {
 				w.Report(mc.Violation{Property: "C18", Oracle: "epc-limit", Signature: "sgx-epc-effective-annotation", Scenario: "sgx-epc",
 					Trace:  []string{fmt.Sprintf("container=%s annotations=%v", target, ann)},
 					Detail: fmt.Sprintf("parseEpcLimit(%q) = (%d, %v), expected %d", target, got, err, expect)})
+			}
+		}
+	}
+	// independence of the order in which annotations are stored: every subset of the four forms that matter, under ALL
+	// iteration permutations of the map (the vgen map-range rewrite hands the order to the harness)
+	forms := []struct{ key, val string }{{epcLimitKey + "/container.c", "11"}, {epcLimitKey + "/container.cc", "44"}, {epcLimitKey + "/pod", "22"}, {epcLimitKey, "33"}}
+	for mask := 1; mask < 1<<uint(len(forms)); mask++ {
+		ann := map[string]string{}
+		var expect uint64
+		for i := len(forms) - 1; i >= 0; i-- {
+			if mask&(1<<uint(i)) != 0 {
+				ann[forms[i].key] = forms[i].val
+				if i != 1 {
+					fmt.Sscan(forms[i].val, &expect) // the last one assigned is the highest-precedence form present (0: container, 2: pod, 3: bare)
+				}
+			}
+		}
+		for _, perm := range mapiter.Permutations(len(ann)) {
+			mapiter.LenPerm = map[int][]int{len(ann): perm}
+			got, err := parseEpcLimit(ann, "c")
+			mapiter.LenPerm = nil
+			w.Res.Evaluations++
+			if err != nil || got != expect {
+				w.Report(mc.Violation{Property: "C18", Oracle: "epc-limit-order", Signature: "sgx-epc-order-dependent", Scenario: "sgx-epc",
+					Trace:  []string{fmt.Sprintf("container=c annotations=%v perm=%v", ann, perm)},
+					Detail: fmt.Sprintf("parseEpcLimit(\"c\") = (%d, %v) under iteration order %v, expected %d", got, err, perm, expect)})
+				break
 			}
 		}
 	}
